@@ -208,7 +208,7 @@ func propC04(r *Run, w *World) {
 					okOrder = false
 				}
 			}
-			ret := p.Return()
+			ret := p.Ret()
 			okRet := ret != nil && mk != nil && ret.Results[0] == ssa.Value(mk)
 			r.Check(okOrder && okVals && okRet && defOK, fmt.Sprintf("ToMapStr path#%d", i), fn.Pos(), "header keys stored last, from the header",
 				"a body field can override a well-known key, or a well-known key is not taken from the header: "+compactPathMU(p))
@@ -472,7 +472,7 @@ func c04UnknownRoundTrip(r *Run, w *World, ruleID string) {
 		ps, _ := Paths(str, PathOpts{})
 		ok := len(ps) == 2
 		for _, p := range ps {
-			ret := p.Return()
+			ret := p.Ret()
 			if ret == nil {
 				ok = false
 				continue
@@ -845,7 +845,7 @@ func propC05(r *Run, w *World) {
 			if p.End != "return" {
 				continue
 			}
-			ret := p.Return()
+			ret := p.Ret()
 			key := fmt.Sprintf("Data path#%d [%s]", i, firstLits(p, 3))
 			cached := p.HasLit("p0.data != nil") || p.HasLit("p0.error != nil")
 			stores := 0
@@ -1102,7 +1102,7 @@ func propC12(r *Run, w *World) {
 				key := fmt.Sprintf("result path#%d [%s]", i, strings.Join(p.Lits(), " ∧ "))
 				adds := p.CallsNamed("(auparse.fieldMap).add")
 				dels := p.CallsNamed("(auparse.fieldMap).delete")
-				ret := p.Return()
+				ret := p.Ret()
 				if p.HasLit("find#1#1 != nil") && p.HasLit("find#2#1 != nil") {
 					r.Check(len(adds) == 0 && len(dels) == 0 && ret != nil && !isNilConst(ret.Results[0]), key, res.Pos(), "neither key: error, nothing changed", "result() changes the map although neither success nor res exists")
 					continue
@@ -1174,7 +1174,7 @@ func propC12(r *Run, w *World) {
 		}
 		seen := map[string]bool{}
 		for _, p := range ps {
-			ret := p.Return()
+			ret := p.Ret()
 			if ret == nil || !isNilConst(ret.Results[0]) {
 				continue // error exits
 			}
@@ -1229,7 +1229,7 @@ func propC12(r *Run, w *World) {
 		}
 		// each decoder's failure is returned
 		for _, p := range ps {
-			ret := p.Return()
+			ret := p.Ret()
 			if ret == nil || isNilConst(ret.Results[0]) {
 				continue
 			}
